@@ -133,8 +133,8 @@ func (u *upstream) HasChunk(id desync.ChunkID) (bool, error) {
 	return c.has, c.err
 }
 func (u *upstream) StoreChunk(ch *desync.Chunk) error { return u.enter("store", ch.ID()).err }
-func (u *upstream) Close() error                       { return nil }
-func (u *upstream) String() string                     { return "scripted" }
+func (u *upstream) Close() error                      { return nil }
+func (u *upstream) String() string                    { return "scripted" }
 
 func genCase(t *rapid.T) Case {
 	var c Case
